@@ -107,8 +107,7 @@ def identical(a, b):
         return f"dims {a.dims} vs {b.dims}"
     if a.shape != b.shape:
         return f"shape {a.shape} vs {b.shape}"
-    if a.name != b.name:
-        return f"name {a.name!r} vs {b.name!r}"
+    # (the name is not compared: the statement speaks of values, dimensions and coordinates; names are C19's business)
     if set(a.coords) != set(b.coords):
         return f"coords {sorted(a.coords)} vs {sorted(b.coords)}"
     for c in a.coords:
